@@ -2,6 +2,7 @@ import OmbottModel.Py
 import OmbottModel.Py.Text
 import OmbottModel.Py.CharLit
 import OmbottModel.Model.Qs
+import OmbottModel.Model.Cookies
 import OmbottModel.Gen.Helpers
 /-
 Model of the two `dict` subclasses of `ombott/request_pkg/helpers.py` the request hands out:
@@ -132,6 +133,11 @@ def sget? : List (Str × Str) → Str → Option Str
 
 /-- `CookieDict(pairs)`: `dict(pairs)` -/
 def cdOfPairs (ps : List (Str × Str)) : CD := { items := ps.foldl (fun d p => sset d p.1 p.2) [] }
+
+/-- `PropsMixin.cookies`:
+`self._cookie_factory((c.key, c.value) for c in SimpleCookie(self._env_get('HTTP_COOKIE', '')).values())` with the
+`http.cookies` tokeniser of `Model/Cookies.lean` -/
+def requestCookies (hdr : Str) : Except Ombott.Cookies.CErr CD := (Ombott.Cookies.parseCookies hdr).map cdOfPairs
 
 /-- names found by normal attribute lookup on a `CookieDict` (generated) -/
 def cdAttrs : List Str := Gen.hpCookieDictAttrs.map String.toList
